@@ -85,7 +85,9 @@ func dischargeAll(opts Options, outDir string, obls []*Obligation) []Discharged 
 			if ground[i] != "" && ground[i] != scripts[i] {
 				gfile := filepath.Join(outDir, fileSafe(o.Name)+".ground.smt2")
 				gv := Solve(ground[i], gfile, opts.timeout(), false)
-				os.Remove(gfile)
+				if !opts.Keep {
+					os.Remove(gfile)
+				}
 				if gv.Status == "proved" {
 					gv.Backend += " (ground)"
 					gv.File = file
@@ -152,7 +154,7 @@ func CmdUnit(opts Options, pats []string) int {
 			continue
 		}
 		for _, p := range pats {
-			if strings.Contains(n, p) {
+			if strings.Contains(n, p) || c.Display != "" && strings.Contains(c.Display, p) {
 				names = append(names, n)
 				break
 			}
@@ -187,7 +189,16 @@ func printUnit(opts Options, out string, r *UnitResult) int {
 			fmt.Println("   warning:", w)
 		}
 	}
-	ds := dischargeAll(opts, out, r.Obligations)
+	obls := r.Obligations
+	if only := os.Getenv("GOVC_ONLY"); only != "" {
+		obls = nil
+		for _, o := range r.Obligations {
+			if strings.Contains(o.Name, only) {
+				obls = append(obls, o)
+			}
+		}
+	}
+	ds := dischargeAll(opts, out, obls)
 	for _, d := range ds {
 		fmt.Printf("   %-9s %-8s %6.2fs %7dB  %s  %v\n", d.V.Status, d.V.Backend, d.V.Seconds, d.V.Bytes, d.O.Name, d.O.Tags)
 		if d.V.Status != "proved" {
@@ -196,7 +207,7 @@ func printUnit(opts Options, out string, r *UnitResult) int {
 			fo := d.O
 			if fo.Failed != nil {
 				fo = fo.Failed
-				fmt.Println("             failing part:", fo.Name)
+				fmt.Println("             failing part:", fo.Name, "at", fo.Pos)
 			}
 			if d.V.Status == "refuted" && opts.Verbose && fo.Unit.fn != nil {
 				explain(fo, out, fo.VC())
